@@ -931,6 +931,11 @@ impl Runner for ER {
             }
             // aggregated per-account bounds
             for ((acc, r), moved) in total_dep.iter() {
+                // the aggregated view cancels known non-fungible ids that are withdrawn and deposited back
+                // (`AggregatedBalanceChange::revise`), so gross totals are only comparable for fungibles
+                if !r.is_fungible() {
+                    continue;
+                }
                 let b = match net_d.get(acc) {
                     Some(nd) => nd.bounds_for(*r),
                     None => ResourceBounds::zero(),
